@@ -6,6 +6,18 @@ ALL = ["C%02d" % i for i in range(1, 21)]
 
 # property id -> dict(category, text, note, technique, design_ref)
 CLAIMED = {
+    "C12": dict(
+        category="other",
+        text="Routing structure of HashClient: a single routing function that asks the hasher about the raw server key on every path and returns the inner key (path analysis for plain keys and pairs); all call sites route with the same arguments; in the batching loops each key is inserted exactly once, under its inner key, into the batch of the server its own routing call returned and is skipped only when no server is left; batches are dispatched once to the client registered under that server; results are merged. Equality of merged values with per-key gets is a runtime consequence (with C16), not decided.",
+        note="Trusted: CPython ast; path interpreter; clients[_make_client_key(s)].server == s (checked at add_server, the only writer).",
+        technique="def-use / path rules over the routing and batching code; who-may-call",
+    ),
+    "C13": dict(
+        category="other",
+        text="Only the local decision structure of the failover state machine is decided, each clause a necessary condition of one bound: the gate of both runner twins as a 144-row decision table over (failing, attempts vs retry_attempts in linear normal form, elapsed vs retry_timeout with direction, 6 outcome classes, ignore_exc); the retry budget derived symbolically from the counter protocol (N(retry_attempts) = retry_attempts); the failure-accounting table; coupled eviction/revival updates and the re-arming rule of the dead scan; only the caught error escapes. Contact counts per sliding window, rerouting, recovery time and bookkeeping exceptions over all histories are NOT decided.",
+        note="Trusted: CPython ast; path interpreter; linear normal forms. retry_timeout < dead_timeout; time.time() monotone within one operation.",
+        technique="finite abstract evaluation (decision tables with linear-normal-form comparisons) over the failover methods",
+    ),
     "C11": dict(
         category="other",
         text="get_node is evaluated over an ordering domain (symbolic scores and names related only by order): a 7-case inductive step shows the fold is the argmax under (score, name) for any number of nodes, whole-function evaluation over all weak orderings x list orders up to 3/4 nodes cross-checks order independence; def-use shows each score depends only on (node, key, seed) with input '<node>-<key>'; with the HRW theorem this gives minimal disruption. Purity, set-like add/remove, canonical node names are structure rules. Spread and spelling-equivalence for all strings are not decided.",
